@@ -121,7 +121,7 @@ def run_shard(args):
         guarded(prop, res, lambda r: props.run_corpus(prop, r))
     guarded(prop, res, props.CHECKS[prop])
     for (txt, g_) in core.INTERLEAVE_FAILURES[:20]:
-        res.fail("property", "%s (call discipline): %s" % (prop, txt), dict(type="game", game=g_))
+        res.fail("property", "%s (call discipline): %s" % (prop, txt), dict(type="pred" if isinstance(g_, dict) and g_.get("_pred") else "game", game=g_))
     core.INTERLEAVE_FAILURES.clear()
     return dict(evaluations=res.evaluations, nontrivial=list(res.nontrivial), samples=res.samples, hist=res.hist,
                 failures=res.failures, traces=res.traces, notes=res.notes, rule=res.rule)
@@ -179,7 +179,7 @@ def main():
             guarded(prop, res, lambda r: props.run_corpus(prop, r))
             guarded(prop, res, props.CHECKS[prop])
         for (txt, g_) in core.INTERLEAVE_FAILURES[:20]:
-            res.fail("property", "%s (call discipline): %s" % (prop, txt), dict(type="game", game=g_))
+            res.fail("property", "%s (call discipline): %s" % (prop, txt), dict(type="pred" if isinstance(g_, dict) and g_.get("_pred") else "game", game=g_))
         for k_, v_ in core.CALL_STATS.items():
             if v_:
                 res.hist["rate_calls_" + k_] = v_
